@@ -39,6 +39,26 @@ def graphs(ctx, families, tag):
     return out
 
 
+def batch(ctx, name, parts):
+    """parts: list of (sid prefix, scripts); one script file with explicit sids (duplicates inside a part dropped)"""
+    import json
+    recs = []
+    for prefix, scripts in parts:
+        seen = set()
+        for s in scripts:
+            key = json.dumps(s, sort_keys=True)
+            if key not in seen:
+                seen.add(key)
+                recs.append({"sid": "%s-%d" % (prefix, len(seen) - 1), "steps": s})
+    return ctx.write_scripts(name, recs, wrap=False)
+
+
+def mid_graphs(ctx, n5, n6, w=W3):
+    walks = ctx.tlc_gen("MC_Algo", gen("{5}", 7, w=w, canon="FALSE", emit="", inv="SimEmit"), "mid5", simulate=(n5, 13), workers=2)
+    walks += ctx.tlc_gen("MC_Algo", gen("{6}", 9, w=w, canon="FALSE", emit="", inv="SimEmit"), "mid6", simulate=(n6, 16), workers=2)
+    return walks
+
+
 def corrupt(ev, rng):
     """binding self-test: change one logged result so that it can no longer satisfy its definition"""
     k = ev.get("ev")
